@@ -599,6 +599,8 @@ NEWTON_HOSTILE = [('cubic-newton-cycle', [2, -2, 0, 1], 2, 1, 1),        # x^3 -
                   ('cubic-newton-cycle', [-2, -2, 0, 1], 2, 1, 1),       # x^3 - 2x - 2 (mirror image)
                   ('quartic-newton-hostile', [5, 0, -1, 0, 1], 2, 0, 2)] # x^4 - x^2 + 5, no real root (irreducible: disc of t^2 - t + 5 is -19)
 
+PROFILES = ('debug', 'release')
+
 def cases(rng, tier):
     th = tier == 'thorough'
     out = []
@@ -714,4 +716,6 @@ def cases(rng, tier):
             seed = rng.getrandbits(63)
             out.append(Case('find_muk', line('find_muk', f, seed), compare=lambda ia, ma: None, oracle=o_muk(w, r, s),
                             always_oracle=True, tag='muk-' + tag))
+    # a slice of the cases again on the release build of the implementation (wrapping arithmetic, debug assertions off)
+    out += lib.release_slice(out, rng, 0.1, mode_ops=())
     return out
